@@ -161,8 +161,9 @@ def uninstall(saved):
         del c2.bytes
 
 
-B64 = ["QUFB", "QkJC", "Q0ND", "RERE"]        # distinct base64 messages for the X.509 elements
-XNAMES = ["quoting_enclave", "platform_ca", "root_ca"]
+B64 = ["QUFB", "QkJC", "Q0ND", "RUVF", "RERE"]        # distinct base64 messages for the X.509 elements; the last is the root
+XNAMES = ["quoting_enclave", "platform_ca", "intermediate_ca", "root_ca"]
+ROOT_B64 = B64[4]
 
 
 def report_body(report_data):
@@ -181,36 +182,37 @@ def place(digest, where):
     return filler + filler
 
 
-@obligation(tier="quick", parts=3, timeout=240, part_names=["1 X.509 element", "2 X.509 elements", "3 X.509 elements"],
-            bounds="X.509 chain depth 1..3 (partition) below the root of trust; per X.509 element: not-before / not-after and the current "
+@obligation(tier="quick", parts=lambda tier: 4 if tier == "thorough" else 3, timeout=240,
+            part_names=["1 X.509 element", "2 X.509 elements", "3 X.509 elements", "4 X.509 elements"],
+            bounds="X.509 chain depth 1..3 (T: 4) (partition) below the root of trust; per X.509 element: not-before / not-after and the current "
                    "time symbolic integers, issuer-signature verdict symbolic; key of the certificate certifying the attestation key "
                    "P-256 or not; attestation key and quote: signature verdict symbolic, binding hash placed as prefix / in the second "
                    "half / nowhere (symbolic); verdict for any other triple symbolic",
-            examples=[(0, dict(now=5, nb0=0, na0=9, nb1=0, na1=9, nb2=0, na2=9, v0=True, v1=True, v2=True, p256=True, vak=True, vq=True,
+            examples=[(0, dict(now=5, nb0=0, na0=9, nb1=0, na1=9, nb2=0, na2=9, nb3=0, na3=9, v0=True, v1=True, v2=True, v3=True, p256=True, vak=True, vq=True,
                                wak=0, wq=0, w=False)),
-                      (2, dict(now=5, nb0=0, na0=9, nb1=6, na1=9, nb2=0, na2=9, v0=True, v1=True, v2=True, p256=True, vak=True, vq=True,
+                      (2, dict(now=5, nb0=0, na0=9, nb1=6, na1=9, nb2=0, na2=9, nb3=0, na3=9, v0=True, v1=True, v2=True, v3=True, p256=True, vak=True, vq=True,
                                wak=0, wq=0, w=True)),
-                      (1, dict(now=5, nb0=0, na0=9, nb1=0, na1=9, nb2=0, na2=9, v0=True, v1=True, v2=True, p256=True, vak=True, vq=True,
+                      (1, dict(now=5, nb0=0, na0=9, nb1=0, na1=9, nb2=0, na2=9, nb3=0, na3=9, v0=True, v1=True, v2=True, v3=True, p256=True, vak=True, vq=True,
                                wak=1, wq=0, w=True)),
-                      (1, dict(now=5, nb0=0, na0=5, nb1=5, na1=9, nb2=0, na2=9, v0=True, v1=True, v2=True, p256=False, vak=True, vq=True,
+                      (1, dict(now=5, nb0=0, na0=5, nb1=5, na1=9, nb2=0, na2=9, nb3=0, na3=9, v0=True, v1=True, v2=True, v3=True, p256=False, vak=True, vq=True,
                                wak=0, wq=0, w=True))])
-def chain(now: int, nb0: int, na0: int, nb1: int, na1: int, nb2: int, na2: int, v0: bool, v1: bool, v2: bool,
-          p256: bool, vak: bool, vq: bool, wak: int, wq: int, w: bool) -> bool:
+def chain(now: int, nb0: int, na0: int, nb1: int, na1: int, nb2: int, na2: int, nb3: int, na3: int, v0: bool, v1: bool, v2: bool,
+          v3: bool, p256: bool, vak: bool, vq: bool, wak: int, wq: int, w: bool) -> bool:
     """
     pre: 0 <= wak <= 2 and 0 <= wq <= 2
     post: _
     """
     depth = part() + 1
-    nbs, nas, vs = [nb0, nb1, nb2][:depth], [na0, na1, na2][:depth], [v0, v1, v2][:depth]
+    nbs, nas, vs = [nb0, nb1, nb2, nb3][:depth], [na0, na1, na2, na3][:depth], [v0, v1, v2, v3][:depth]
     world = World()
     world.w = w
     world.now = now
     # X.509 elements: index 0 certifies the attestation key, index depth-1 is signed by the root of trust
     for i in range(depth):
         world.certs[pem_of(B64[i])] = TokCert(world, B64[i].encode(), nbs[i], nas[i], p256 if i == 0 else True)
-    world.certs[pem_of(B64[3])] = TokCert(world, B64[3].encode(), 0, 0)       # the root of trust itself
+    world.certs[pem_of(ROOT_B64)] = TokCert(world, ROOT_B64.encode(), 0, 0)       # the root of trust itself
     for i in range(depth):
-        issuer = B64[i + 1] if i + 1 < depth else B64[3]
+        issuer = B64[i + 1] if i + 1 < depth else ROOT_B64
         world.right[(("x509key", issuer.encode()), b"SIG:" + B64[i].encode(), b"TBS:" + B64[i].encode())] = vs[i]
     # attestation key element
     ak_key = pat(64, 3)
@@ -242,7 +244,7 @@ def chain(now: int, nb0: int, na0: int, nb1: int, na1: int, nb2: int, na2: int, 
                 wfn._verif_native = True
                 setattr(c2, name, wfn)
         cert = c2.HSMCertificateV2(doc)
-        root = c2.HSMCertificateV2ElementX509({"name": "sgx_root", "message": B64[3], "signed_by": "sgx_root"})
+        root = c2.HSMCertificateV2ElementX509({"name": "sgx_root", "message": ROOT_B64, "signed_by": "sgx_root"})
         got = cert.validate_and_get_values(root)
         # ---- oracle: walk from the root down
         failing = None
